@@ -166,10 +166,10 @@ impl Encodable for Unsubscribe {
 #[derive(Debug, Clone, Copy, PartialEq, Eq, Hash)]
 #[cfg_attr(feature = "arbitrary", derive(arbitrary::Arbitrary))]
 pub enum SubscribeReturnCode {
-    MaxLevel0,
-    MaxLevel1,
-    MaxLevel2,
-    Failure,
+    MaxLevel0 = 0,
+    MaxLevel1 = 1,
+    MaxLevel2 = 2,
+    Failure = 0x80,
 }
 
 impl SubscribeReturnCode {
